@@ -95,6 +95,154 @@ def extract_chain(fn, vid, mode):
     return chain, blocks, b
 
 
+M32 = 0xFFFFFFFF
+
+
+def abstract_chain(fn, vid):
+    """The padding chain of a normaliser written with a loop (or any other control flow over constants): a bounded abstract
+    execution over {constant, x, x & mask}.  Branches on constants are followed; a branch on `(x & M) == C` (or `x == C`) is a
+    padding case whose true edge must return `x & R` or 0; execution continues on its false edge.  Returns (chain, identity_tail)
+    or (None, False) when the function has another shape."""
+    chain = []
+    env = {}
+    state = {'b': fn.entry, 'steps': 0}
+
+    def ev_block(b, env):
+        val = {}
+        ret = [None]
+        for e in fn.blocks[b]['el']:
+            k, i = e['k'], e['i']
+            c = e.get('c') or []
+            g = lambda j: val.get(c[j]) if len(c) > j and isinstance(c[j], int) else None
+            if e.get('v') is not None and k != 'DeclRefExpr':
+                val[i] = ('k', e['v'] & M32 if e['v'] >= 0 else e['v'])
+            elif k == 'DeclRefExpr':
+                if e.get('v') is not None:
+                    val[i] = ('k', e['v'])
+                else:
+                    val[i] = ('lv', e.get('vid'))
+            elif k.endswith('CastExpr') or k in ('ParenExpr', 'ExprWithCleanups', 'ConstantExpr'):
+                v = g(0)
+                if v and v[0] == 'lv' and (e.get('ck') == 'LValueToRValue'):
+                    v = ('x',) if v[1] == vid else env.get(v[1], ('unk',))
+                val[i] = v
+            elif k == 'UnaryOperator':
+                v = g(0)
+                if e['op'] == '~' and v and v[0] == 'k':
+                    val[i] = ('k', ~v[1] & M32)
+                elif e['op'] in ('pre++', 'post++', 'pre--', 'post--') and v and v[0] == 'lv' and env.get(v[1], ('unk',))[0] == 'k':
+                    d = 1 if '++' in e['op'] else -1
+                    old = env[v[1]][1]
+                    env[v[1]] = ('k', old + d)
+                    val[i] = ('k', old if e['op'].startswith('post') else old + d)
+                elif e['op'] == '!' and v and v[0] == 'k':
+                    val[i] = ('k', int(not v[1]))
+                else:
+                    val[i] = ('unk',)
+            elif k in ('BinaryOperator', 'CompoundAssignOperator'):
+                a, b_ = g(0), g(1)
+                op = e['op']
+                if op == '=' and a and a[0] == 'lv':
+                    env[a[1]] = b_ if b_ else ('unk',)
+                    val[i] = a
+                    continue
+                if k == 'CompoundAssignOperator':
+                    base = op[:-1]
+                    cur = env.get(a[1], ('unk',)) if a and a[0] == 'lv' else ('unk',)
+                    r = arith(base, cur, b_)
+                    if a and a[0] == 'lv':
+                        env[a[1]] = r
+                    val[i] = a
+                    continue
+                val[i] = arith(op, a, b_)
+            elif k == 'DeclStmt':
+                for d in e.get('decls', []):
+                    if d.get('vid') is not None:
+                        iv = d.get('init')
+                        v = val.get(iv) if isinstance(iv, int) else None
+                        if v and v[0] == 'lv':
+                            v = ('x',) if v[1] == vid else env.get(v[1], ('unk',))
+                        env[d['vid']] = v if v else ('unk',)
+            elif k == 'ReturnStmt':
+                v = g(0)
+                if v and v[0] == 'lv':
+                    v = ('x',) if v[1] == vid else env.get(v[1], ('unk',))
+                ret[0] = v if v else ('unk',)
+            else:
+                val[i] = ('unk',)
+        return val, ret[0]
+
+    def arith(op, a, b_):
+        if not a or not b_:
+            return ('unk',)
+        if a[0] == 'k' and b_[0] == 'k':
+            x, y = a[1], b_[1]
+            try:
+                r = {'+': x + y, '-': x - y, '*': x * y, '<<': (x << y) if 0 <= y < 64 else 0, '>>': (x >> y) if 0 <= y < 64 else 0, '&': x & y, '|': x | y,
+                     '^': x ^ y, '<': int(x < y), '>': int(x > y), '<=': int(x <= y), '>=': int(x >= y), '==': int(x == y), '!=': int(x != y)}.get(op)
+            except Exception:
+                r = None
+            return ('k', r & M32 if r is not None and r >= 0 else r) if r is not None else ('unk',)
+        if op == '&':
+            for p_, q_ in ((a, b_), (b_, a)):
+                if q_[0] == 'k' and p_[0] == 'x':
+                    return ('xand', q_[1] & M32)
+                if q_[0] == 'k' and p_[0] == 'xand':
+                    return ('xand', p_[1] & q_[1] & M32)
+        if op in ('==', '!='):
+            for p_, q_ in ((a, b_), (b_, a)):
+                if q_[0] == 'k' and p_[0] in ('x', 'xand'):
+                    return ('test', M32 if p_[0] == 'x' else p_[1], q_[1] & M32, op == '==')
+        return ('unk',)
+
+    b = fn.entry
+    ident = False
+    for _ in range(200):
+        val, ret = ev_block(b, env)
+        if ret is not None:
+            ident = ret == ('x',)
+            break
+        succ = fn.blocks[b]['succ']
+        if not succ or b == fn.exit:
+            break
+        if len(succ) == 1:
+            if succ[0] is None:
+                break
+            b = succ[0]
+            continue
+        cond = (fn.blocks[b].get('term') or {}).get('cond')
+        cv = val.get(cond) if cond is not None else None
+        if cv and cv[0] == 'lv':
+            cv = env.get(cv[1], ('unk',))
+        if cv and cv[0] == 'k':
+            nxt = succ[0] if cv[1] else succ[1]
+            if nxt is None:
+                return None, False
+            b = nxt
+            continue
+        if cv and cv[0] == 'test' and len(succ) == 2 and None not in succ:
+            tb, fb_ = (succ[0], succ[1]) if cv[3] else (succ[1], succ[0])
+            # the true edge: straight to a return of x & R or 0
+            e2 = dict(env)
+            bb, res = tb, None
+            for _ in range(6):
+                v2, r2 = ev_block(bb, e2)
+                if r2 is not None:
+                    res = 0 if r2 == ('k', 0) else (r2[1] if r2[0] == 'xand' else None)
+                    break
+                ss = fn.blocks[bb]['succ']
+                if len(ss) != 1 or ss[0] is None:
+                    break
+                bb = ss[0]
+            if res is None:
+                return None, False
+            chain.append((cv[1], cv[2], res))
+            b = fb_
+            continue
+        return None, False
+    return (chain if chain else None), ident
+
+
 def normalisers(fx):
     """every function of one 32-bit parameter whose body is a padding chain in return form (zeropad and any helper like it)"""
     out = []
@@ -105,9 +253,18 @@ def normalisers(fx):
         try:
             chain, _, tail = extract_chain(fn, ps[0]['vid'], 'return')
         except (AnalysisBroken, KeyError, IndexError):
-            continue
+            chain, tail = None, None
         if chain:
             out.append((fn, ps[0]['vid'], chain, tail))
+            continue
+        if 'int' not in (ps[0].get('t') or '') or fn.f.get('ret') not in ('unsigned int', 'graphite2::uint32', 'uint32', 'gr_uint32'):
+            continue
+        try:
+            chain, ident = abstract_chain(fn, ps[0]['vid'])
+        except (KeyError, IndexError, TypeError):
+            chain, ident = None, False
+        if chain:
+            out.append((fn, ps[0]['vid'], chain, ('abstract', ident)))
     return out
 
 
@@ -167,7 +324,10 @@ def check(run, fx, rule):
         name = fn.q.split('::')[-1]
         norm_names.add(fn.q)
         _check_chain(run, rule, name, fn, chain)
-        ok = any(e['k'] == 'ReturnStmt' and _is_var(fn, e['c'][0], vid) for e in fn.blocks[tail]['el'])
+        if isinstance(tail, tuple) and tail[0] == 'abstract':
+            ok = tail[1]
+        else:
+            ok = any(e['k'] == 'ReturnStmt' and _is_var(fn, e['c'][0], vid) for e in fn.blocks[tail]['el'])
         if ok:
             run.held(rule, '%s identity' % name, fn.where(), 'unpadded tags are returned unchanged')
         else:
